@@ -50,6 +50,11 @@ RULE = ("matrix part: every m x n (1<=n<=m<=4, thorough 6; generic members to 8;
         "non-symmetric, inverses of such) x every d in {-2,-.5,0,.5,1,10}^n and complex d in {0,1,.5+.5j,-j}^n "
         "with well-conditioned partial sums; chordal part: all pairs of the tiny exhaustive families, generic "
         "pairs (s,s+1..s+3), nearly dependent pairs; conv part: 301 points over 30 decades x bits 1..12. "
+        "Every kernel additionally: global scale factors 1e-12..1e9 on generic/nearly dependent members, nearly "
+        "tied singular values (relative gaps 1e-6, 1e-9), and an aliasing battery (arguments Fortran ordered, "
+        "read-only transposed view, read-only C copy: arguments bit-identical afterwards, no exception, second call "
+        "with the same objects identical, result independent of layout) on all members except 3 of 4 members of "
+        "the exhaustive small-entry families. "
         "Rank-deficient members and members above the relation's kappa bound are excluded and counted. "
         "A case is non-trivial when the matrix has more than one entry; distinct = distinct "
         "(kernel, family, member, shape, parameter)")
@@ -239,13 +244,16 @@ def flat(r):
         for x in r:
             out += flat(x)
         return out
-    return [np.asarray(r)]
+    return [np.array(r, copy=True)]      # a copy: a result aliasing an argument must not hide a later change
 
 
 def alias_battery(chk, kern, fn, arrs, case, kappa=1.0, compare_layouts=True):
     """fn(*arrays) must (a) leave every argument bit-identical, (b) not raise on read-only or
     non-C-contiguous arguments, (c) return the same when called again with the same argument
     objects, (d) not depend on the memory layout of its arguments"""
+    fam, mem = case.get("fam", ""), case.get("member", 0)
+    if fam.startswith(("cunit3", "rint3")) and (fam.endswith("_eigonly") or (isinstance(mem, int) and mem % 4)):
+        return          # exhaustive small-entry families: every 4th member (stated in RULE); all other families: all
     with chk.guard((kern, "aliasing", "reference_call"), case):
         base = flat(fn(*[np.array(a) for a in arrs]))
         for how in LAYOUTS:
@@ -604,6 +612,11 @@ def update_items(tier):
             if np.iscomplexobj(X) and n <= 3:
                 for d in itertools.product(D_ALPH_CPLX, repeat=n):
                     yield (fam + "_cplx_d", member, X, np.array(d, dtype=complex))
+            # the same problem at other magnitudes: (g X, d / g)
+            if member < 2 and n <= 3:
+                for g in SCALES:
+                    for d in itertools.product((-0.5, 0.0, 1.0, 10.0), repeat=n):
+                        yield ("%s@%g" % (fam, g), member, g * X, np.array(d) / g)
 
 
 def run_update(chk, case):
@@ -689,6 +702,10 @@ def chordal_pairs(tier):
                        F.generic(s + dlt, (m, k), True, tag=25))
                 yield ("generic_r", (s, s + dlt), F.generic(s, (m, k), False, tag=25),
                        F.generic(s + dlt, (m, k), False, tag=25))
+            if s < 3:       # subspaces do not depend on the magnitude of the basis
+                for ga, gb in ((1e-9, 1e6), (1e9, 1e-12), (1e-6, 1e-6)):
+                    yield ("generic_c@%g,%g" % (ga, gb), (s, s + 1), ga * F.generic(s, (m, k), True, tag=25),
+                           gb * F.generic(s + 1, (m, k), True, tag=25))
         if k >= 2:
             for kappa in (1e2, 1e4):
                 for s in range(S // 2):
@@ -766,6 +783,10 @@ def run_chordal(chk, case):
         cmp3("unitary_invariance", u1, u2, u3, dref)
         if m > 1:
             chk.nontriv(("chordal", case["fam"], tuple(case["member"]), m, k))
+    if case["member"][0] < 2:
+        from pyphysim.subspace import metrics as MT
+        for nm in ("calc_chordal_distance", "calc_chordal_distance_2", "calc_principal_angles"):
+            alias_battery(chk, nm, getattr(MT, nm), [A, B], case, compare_layouts=False)
 
 
 # ----------------------------------------------------------------------
@@ -849,6 +870,12 @@ def run_conv(chk):
                 chk.fail(("conversion", rn, "pyint"), {"part": "conv", "form": "pyint", "what": rn},
                          observed=got, expected=want_)
         chk.nontriv(("conv", "grids"))
+    lin_g = np.array([math.exp((-15.0 + 0.5 * i) * LN10) for i in range(61)])
+    db_g = np.array([-150.0 + 5 * i for i in range(61)])
+    for nm, grid in (("dB2Linear", db_g), ("dBm2Linear", db_g), ("linear2dB", lin_g), ("linear2dBm", lin_g)):
+        alias_battery(chk, nm, getattr(CV, nm), [grid], {"part": "conv", "what": nm})
+    alias_battery(chk, "SNR_dB_to_EbN0_dB", lambda a: CV.SNR_dB_to_EbN0_dB(a, 4), [db_g], {"part": "conv"})
+    alias_battery(chk, "EbN0_dB_to_SNR_dB", lambda a: CV.EbN0_dB_to_SNR_dB(a, 4), [db_g], {"part": "conv"})
 
 
 # ----------------------------------------------------------------------
@@ -880,7 +907,8 @@ def main(chk: Check):
             if not is_head(fam, A):
                 run_matrix_item(c, fam, member, A)
         for fam, member, X, d in shard(update_items(c.tier), i, n):
-            run_update(c, {"part": "update", "fam": fam, "member": member, "X": X, "d": d})
+            run_update(c, {"part": "update", "fam": fam, "member": member, "X": X, "d": d,
+                           "battery": member == 0})
         for fam, member, A, B in shard(chordal_pairs(c.tier), i, n):
             run_chordal(c, {"part": "chordal", "fam": fam, "member": member, "A": A, "B": B})
 
